@@ -425,6 +425,15 @@ var pathConverter = regexp.MustCompile(`{(.+?)}([^/]*)`)
 
 func decodeCompositParams(name string, value string, pattern string, names []string, values []string) ([]string, []string) {
 	pleft := strings.Index(pattern, "{")
+	pright := -1
+	if pleft >= 0 {
+		// the closing brace of that placeholder: a pattern without one is literal text
+		if closing := strings.Index(pattern[pleft:], "}"); closing >= 0 {
+			pright = pleft + closing
+		} else {
+			pleft = -1
+		}
+	}
 	names = append(names, name)
 	if pleft < 0 {
 		if strings.HasSuffix(value, pattern) {
@@ -434,7 +443,6 @@ func decodeCompositParams(name string, value string, pattern string, names []str
 		}
 	} else {
 		toskip := pattern[:pleft]
-		pright := strings.Index(pattern, "}")
 		vright := strings.Index(value, toskip)
 		if vright >= 0 {
 			values = append(values, value[:vright])
